@@ -44,7 +44,8 @@ def count_nonzero(a, axis=None):
         ctx.assume(f, tag="count_nonzero")
     ctx.trusted.add("np.count_nonzero(axis) (sound, incomplete: 0 <= count <= extent, >= 1 if some entry is True)")
     out = SymArray(tuple(bshape), lambda idx: C(*idx), "int")
-    out.counts_of = a
+    if tuple(red) == tuple(range(1, a.ndim)):
+        out.counts_of = a
     return unwrap0(out)
 
 
@@ -74,6 +75,9 @@ def np_repeat(x, repeats):
     if x.ndim != 1 or reps.ndim != 1:
         raise Undecided("np.repeat on n-d arrays")
     m = x.zshape[0]
+    exact = _repeat_of_row_counts(x, reps)
+    if exact is not None:
+        return exact
     nm = ctx.fresh("repeat")
     L = z3.Int(nm + ".len")
     src = z3.Function(nm + ".src", z3.IntSort(), z3.IntSort())
@@ -87,5 +91,19 @@ def np_repeat(x, repeats):
         ctx.assume(f, tag="np.repeat")
     ctx.trusted.add("np.repeat(x, counts) (sound, incomplete: sorted source positions, only rows with a positive count)")
     out = SymArray((L,), lambda idx: x.get((src(idx[0]),)), x._dtype)
+    out.mutable = True
+    return out
+
+
+def _repeat_of_row_counts(x, reps):
+    """Counting lemma (assumed, DESIGN 4.3): np.repeat(x, count_nonzero(R, axis=all but the first))[p] =
+    x[row of the p-th True entry of R in row-major order]; the length is the number of True entries."""
+    R = getattr(reps, "counts_of", None)
+    if R is None or R.ndim < 2:
+        return None
+    ctx = cur()
+    ms = mask_selector(R)
+    ctx.trusted.add("counting lemma (assumed; cross-checked natively): repeat(x, row counts of R)[p] = x[row of the p-th True of R]")
+    out = SymArray((ms.K,), lambda idx: x.get((ms.sel(idx[0])[0],)), x._dtype)
     out.mutable = True
     return out
